@@ -1618,19 +1618,21 @@ impl<'a, R: FileManager> FrontendCtx<'a, R> {
                     }
 
                     let mut key = type_args[0].clone();
-                    let mut is_ref = matches!(key.kind, RuntypeKind::Ref(_));
+                    let mut seen_refs = BTreeSet::new();
 
-                    while is_ref {
-                        if let RuntypeKind::Ref(r) = &type_args[0].kind {
-                            let map = self
-                                .partial_validators
-                                .get(r)
-                                .and_then(|it| it.as_ref())
-                                .cloned();
-                            if let Some(schema) = map {
-                                key = schema;
-                                is_ref = matches!(key.kind, RuntypeKind::Ref(_));
-                            }
+                    // follow alias chains; stop at a reference that is not resolved (yet) or was met before
+                    while let RuntypeKind::Ref(r) = &key.kind {
+                        if !seen_refs.insert(r.clone()) {
+                            break;
+                        }
+                        let map = self
+                            .partial_validators
+                            .get(r)
+                            .and_then(|it| it.as_ref())
+                            .cloned();
+                        match map {
+                            Some(schema) => key = schema,
+                            None => break,
                         }
                     }
                     let key_clone = key.clone();
